@@ -238,3 +238,20 @@ impl Handler<SequenceRequest> for SequenceManager {
         Box::pin(fut)
     }
 }
+
+/// Verification hooks (only compiled with `--cfg rnacos_verif`): call the unmodified private
+/// `do_next_id`, and reach the per-key `SeqGroup` of a (not started) SequenceManager.
+#[cfg(rnacos_verif)]
+impl SequenceManager {
+    pub fn verif_do_next_id(&mut self, key: &Arc<String>) -> (Option<u64>, bool) {
+        self.do_next_id(key)
+    }
+
+    pub fn verif_group(&mut self, key: &Arc<String>) -> Option<&mut SeqGroup> {
+        self.seq_map.get_mut(key)
+    }
+
+    pub fn verif_step(&self) -> u64 {
+        self.seq_step
+    }
+}
